@@ -215,6 +215,9 @@ fn build_enum(name: &str, kinds: &[char]) -> Option<EnumDecl> {
                 let (t, v) = match i % 4 {
                     0 => (format!("{} + 10", prev_m.name), p + 10.0),
                     1 => (format!("{} * 2", prev_m.name), p * 2.0),
+                    // (`-A` with A = 0 is left out: whether the folded constant is printed as 0 or -0
+                    // is a detail of the TypeScript compiler's printer, not of the construct)
+                    2 if p == 0.0 => return None,
                     2 => (format!("-{}", prev_m.name), -p),
                     _ => (format!("({} | 8)", prev_m.name), (((p as i64 as i32) | 8) as f64)),
                 };
@@ -236,6 +239,37 @@ fn build_enum(name: &str, kinds: &[char]) -> Option<EnumDecl> {
         members.push(m);
     }
     Some(EnumDecl { name: name.to_string(), blocks: vec![members] })
+}
+
+/// Constant-expression matrix: `enum E { A = x, B = y, C = A op B, D, F = ~C, G = -A, H = x op y }`
+/// for every binary operator TypeScript folds and 16 operand values on both sides of the
+/// int32 / uint32 / 2^53 boundaries. The emit evaluates the same expressions at run time
+/// (qualified member references); only the member values are observed (-0 as 0: a compiler that
+/// folds constants prints -0 as 0), so the matrix is independent of how the enum object lists its keys.
+// (`**` is left out: the accuracy of the power function is C01 / C15 matter)
+const CONST_OPS: &[&str] = &["+", "-", "*", "/", "%", "|", "&", "^", "<<", ">>", ">>>"];
+const CONST_OPERANDS: &[&str] =
+    &["0", "1", "5", "31", "32", "33", "255", "2147483647", "2147483648", "4294967295", "4294967297", "-1", "-2147483648", "-2147483649", "1.5", "9007199254740993"];
+
+fn enum_const_matrix() -> Vec<(String, String, String, String)> {
+    let mut v = Vec::new();
+    for (oi, op) in CONST_OPS.iter().enumerate() {
+        for (xi, x) in CONST_OPERANDS.iter().enumerate() {
+            for (yi, y) in CONST_OPERANDS.iter().enumerate() {
+                // `-1 ** y` is a syntax error in both languages: parenthesise literal operands
+                // __q: integers as they are (-0 as 0), other numbers in units of 1/1024 (how a
+                // double with a long fraction is printed is C15's subject, not this check's)
+                let q = "function __q(v) { return typeof v !== 'number' || v % 1 === 0 || v !== v ? v + 0 : '~' + Math.round(v * 1024); }\n";
+                let ts = format!("{q}enum E {{ A = {x}, B = {y}, C = A {op} B, D, F = ~C, G = -A, H = ({x}) {op} ({y}) }}\n");
+                let js = format!(
+                    "{q}var E;\n(function (E) {{\n    E[E[\"A\"] = {x}] = \"A\";\n    E[E[\"B\"] = {y}] = \"B\";\n    E[E[\"C\"] = E.A {op} E.B] = \"C\";\n    E[E[\"D\"] = E.C + 1] = \"D\";\n    E[E[\"F\"] = ~E.C] = \"F\";\n    E[E[\"G\"] = -E.A] = \"G\";\n    E[E[\"H\"] = ({x}) {op} ({y})] = \"H\";\n}})(E || (E = {{}}));\n"
+                );
+                let obs = obs_program(&["A", "B", "C", "D", "F", "G", "H"].iter().map(|m| format!("__show(__q(E.{}))", m)).chain(["__show(E.C === E.H)".to_string(), "typeof E.D".to_string()]).collect::<Vec<_>>());
+                v.push((format!("enum-const/{}/{}/{}", oi, xi, yi), ts, js, obs));
+            }
+        }
+    }
+    v
 }
 
 /// merged declarations: two or three blocks; later blocks start with an initializer and may refer to E.<earlier>
@@ -867,6 +901,9 @@ fn enumerated_cases(ctx: &Ctx) -> Vec<Case> {
         if i % 3 == 0 {
             v.push(Case { id: format!("enum-merged-in-fn/{}", i), ts: wrap(&e.ts(), &obs, 1), js: wrap(&e.js("let"), &obs, 1) });
         }
+    }
+    for (id, ts, js, obs) in enum_const_matrix() {
+        v.push(Case { id, ts: wrap(&ts, &obs, 0), js: wrap(&js, &obs, 0) });
     }
     for (i, (decl, uses)) in const_enum_cases().into_iter().enumerate() {
         let ts_obs = obs_program(&uses.iter().map(|(t, _)| format!("__show({})", t)).collect::<Vec<_>>());
